@@ -149,6 +149,8 @@ type Engine struct {
 	step     int
 	tagN     int
 	lapseEnd int64
+	held     []heldBytes // byte slices received from (or passed to) Forward earlier, with what they must still hold
+	heldRes  []heldBytes // blobs of listed identities and signatures handed out earlier
 }
 
 func kidFor(tag string, r *rand.Rand) (string, bool) {
@@ -833,6 +835,9 @@ func (e *Engine) opList() {
 			e.disc([]string{"C10"}, "listed-blob-unparsable", fmt.Sprintf("%x: %v", k.Blob, perr))
 		}
 	}
+	if len(keys) > 0 {
+		e.hold("listed-blob", keys[e.R.Intn(len(keys))].Blob)
+	}
 }
 
 func (e *Engine) opSigners() {
@@ -983,6 +988,7 @@ func (e *Engine) opSign() {
 			e.disc([]string{"C10"}, "signature-does-not-verify", fmt.Sprintf("Sign(%s): %v", e.describe(blob), verr))
 		} else {
 			e.St.SignsVerified++
+			e.hold("signature", sig.Blob)
 			if strings.HasPrefix(key.Type(), "sk-") {
 				e.St.Ops["security-key-signature-verified"]++
 			}
@@ -1441,7 +1447,48 @@ func (e *Engine) opForward() {
 	if !bytes.Equal(evs[0].Reply, resp) {
 		e.disc([]string{"C10"}, "forward-reply-bytes-altered", fmt.Sprintf("underlying agent sent %d bytes, caller received %d bytes", len(evs[0].Reply), len(resp)))
 	}
+	// the caller keeps what it was handed (and what it passed): later operations must not change either
+	for _, h := range e.held {
+		if !bytes.Equal(h.got, h.want) {
+			e.disc([]string{"C10"}, "forward-reply-changes-afterwards", fmt.Sprintf("a reply of %d bytes relayed %d operations ago no longer equals what the underlying agent sent", len(h.want), e.step-h.step))
+			e.held = nil
+			break
+		}
+	}
+	if len(e.held) < 4 {
+		e.held = append(e.held, heldBytes{got: resp, want: append([]byte(nil), evs[0].Reply...), step: e.step})
+		e.held = append(e.held, heldBytes{got: req, want: append([]byte(nil), evs[0].Req...), step: e.step})
+	} else {
+		e.held[e.R.Intn(len(e.held))] = heldBytes{got: resp, want: append([]byte(nil), evs[0].Reply...), step: e.step}
+	}
 	e.St.Forwarded++
+}
+
+type heldBytes struct {
+	got, want []byte
+	step      int
+	what      string
+}
+
+// hold remembers a byte slice the shim handed to the caller; checkHeld (run after every operation) verifies that
+// nothing the shim did later changed it.
+func (e *Engine) hold(what string, b []byte) {
+	h := heldBytes{got: b, want: append([]byte(nil), b...), step: e.step, what: what}
+	if len(e.heldRes) < 12 {
+		e.heldRes = append(e.heldRes, h)
+	} else {
+		e.heldRes[e.R.Intn(len(e.heldRes))] = h
+	}
+}
+
+func (e *Engine) checkHeld() {
+	for _, h := range e.heldRes {
+		if !bytes.Equal(h.got, h.want) {
+			e.disc([]string{"C10"}, "result-changes-afterwards:"+h.what, fmt.Sprintf("%d bytes handed out by the shim %d operations ago have changed", len(h.want), e.step-h.step))
+			e.heldRes = nil
+			return
+		}
+	}
 }
 
 // opCloseLocked: closing a locked shim must fail and leave it usable (an unlocked shim is not closed mid-history).
@@ -1542,6 +1589,7 @@ func (e *Engine) Run() {
 		if e.hung {
 			return
 		}
+		e.checkHeld()
 		e.St.ModelStates[e.stateSig(e.snapshotU())] = struct{}{}
 		if len(e.Disc) > 3 {
 			return
